@@ -253,6 +253,16 @@ pub fn run(run: &mut Run) -> PResult {
     run.rule = "histories: for each size 2..7 a sequence of 1..40 operations (construct from an array, construct from parts / by the slot constructor, set one slot, set one slot to its current word with one bit flipped, select five slots) with arbitrary u32 words (cards, flagged cards, corruptions, raw), compared after every step with a plain array that received the same writes — by accessor, to_arr, iter and equality with From<array>; exhaustively: every setter of every size on distinct sentinel words, every constructor, a rewrite sequence per setter (a card, each of its 32 one-bit variants, blank, all-ones, blank), every in-range index tuple for five_from_permutation on Six (6^5) and Seven (7^5) over three kinds of stored words. Non-trivial = histories containing a setter followed by a read (every step is followed by a full read); distinct by 64-bit hash of the history".into();
     run.assume("out-of-range selection indexes are outside the statement (they index past the array)");
     super::regress::replay_dir(run, "C19", check_case)?;
+    {
+        let mut items: Vec<(usize, Vec<Op>)> = Vec::new();
+        for size in 2..=7usize {
+            let base: Vec<u32> = (0..size as u32).map(|i| card::DECK[(i * 7 + 2) as usize]).collect();
+            for k in 0..size {
+                items.push((size, vec![Op::Parts(base.clone(), 0), Op::Set(k as u8, card::DECK[44 + k]), Op::Flip(k as u8, 30), Op::Set(((k + 1) % size) as u8, 0), Op::Select([0, 1, (k % size) as u8, 1, 0])]));
+            }
+        }
+        super::common::disturbance_pass(run, &items, &|it| history_clause(it.0, &it.1), &|it| ("C19.history".into(), json!({"size": it.0, "ops": ops_json(&it.1)}), format!("size={}", it.0)))?;
+    }
     let thorough = run.tier == Tier::Thorough;
     // E: every setter of every size, distinct sentinels; every constructor
     {
@@ -370,6 +380,9 @@ pub fn run(run: &mut Run) -> PResult {
 }
 
 pub fn check_case(clause: &str, case: &Value) -> Result<(), String> {
+    if clause.ends_with(".after_disturbance") {
+        return super::common::replay_after_disturbance(case, check_case);
+    }
     match clause {
         "C19.fuzz" => super::fuzz::check_fuzz_case(case),
         _ => {
